@@ -4,6 +4,7 @@ package main
 
 import (
 	"bytes"
+	"errors"
 	"fmt"
 	"strings"
 
@@ -171,6 +172,8 @@ func exec(a []string) string {
 		buf.PushLayer(gopacket.LayerType(t))
 		expLay = append(expLay, gopacket.LayerType(t))
 		return "ok"
+	case "stack":
+		return execStack(a[2:])
 	case "layers":
 		var sb strings.Builder
 		sb.WriteString("ok")
@@ -189,6 +192,140 @@ func exec(a []string) string {
 		return "ok " + lib.Hex(buf.Bytes())
 	}
 	return "bad-op"
+}
+
+// ---------------------------------------------------------------- SerializeLayers with scripted layers
+
+// scriptLayer is a SerializableLayer that records the Layers() list it finds when SerializeTo is called,
+// then fails or prepends h bytes computed from (type, index, payload length).
+type scriptLayer struct {
+	t, h int
+	ok   bool
+	seen *[][]gopacket.LayerType
+}
+
+func (s *scriptLayer) LayerType() gopacket.LayerType { return gopacket.LayerType(s.t) }
+func (s *scriptLayer) SerializeTo(b gopacket.SerializeBuffer, opts gopacket.SerializeOptions) error {
+	*s.seen = append(*s.seen, append([]gopacket.LayerType(nil), b.Layers()...))
+	if !s.ok {
+		return errors.New("scripted failure")
+	}
+	p := len(b.Bytes())
+	bs, err := b.PrependBytes(s.h)
+	if err != nil {
+		return err
+	}
+	for j := range bs {
+		bs[j] = byte((s.t*16 + j + p) % 256)
+	}
+	return nil
+}
+
+func showTypes(ls []gopacket.LayerType) string {
+	if len(ls) == 0 {
+		return "-"
+	}
+	w := make([]string, len(ls))
+	for i, t := range ls {
+		w[i] = lib.Itoa(int(t))
+	}
+	return strings.Join(w, ",")
+}
+
+func sameTypes(a, b []gopacket.LayerType) bool {
+	if len(a) != len(b) {
+		return false
+	}
+	for i := range a {
+		if a[i] != b[i] {
+			return false
+		}
+	}
+	return true
+}
+
+// execStack: `sbuf stack <type>:<hdrlen>:<1|0> …` (outermost first) = gopacket.SerializeLayers on the current buffer.
+func execStack(specs []string) string {
+	var seen [][]gopacket.LayerType
+	var ls []gopacket.SerializableLayer
+	var sl []*scriptLayer
+	for _, w := range specs {
+		f := strings.Split(w, ":")
+		if len(f) != 3 {
+			return "bad-op"
+		}
+		t, ok1 := lib.Atoi(f[0])
+		h, ok2 := lib.Atoi(f[1])
+		o, ok3 := lib.Atoi(f[2])
+		if !ok1 || !ok2 || !ok3 || t < 0 || h < 0 || o < 0 || o > 1 {
+			return "bad-op"
+		}
+		l := &scriptLayer{t: t, h: h, ok: o == 1, seen: &seen}
+		sl = append(sl, l)
+		ls = append(ls, l)
+	}
+	err := gopacket.SerializeLayers(buf, gopacket.SerializeOptions{}, ls...)
+	// independent oracle: innermost first, stop at the first failing layer
+	var done []gopacket.LayerType
+	var payload []byte
+	failed := false
+	ncalled := 0
+	for i := len(sl) - 1; i >= 0; i-- {
+		l := sl[i]
+		ncalled++
+		if ncalled > len(seen) || !sameTypes(seen[ncalled-1], done) {
+			got := "never called"
+			if ncalled <= len(seen) {
+				got = showTypes(seen[ncalled-1])
+			}
+			lib.Finding("C18", "sbuf:stack:observed-layers", fmt.Sprintf("layer %d (type %d) of a %d-layer stack found Layers()=%s while being serialised; the layers already serialised are %s", i, l.t, len(sl), got, showTypes(done)))
+		}
+		if !l.ok {
+			failed = true
+			break
+		}
+		hdr := make([]byte, l.h)
+		for j := range hdr {
+			hdr[j] = byte((l.t*16 + j + len(payload)) % 256)
+		}
+		payload = append(hdr, payload...)
+		done = append(done, gopacket.LayerType(l.t))
+	}
+	if len(seen) != ncalled {
+		lib.Finding("C18", "sbuf:stack:calls", fmt.Sprintf("%d SerializeTo calls, expected %d", len(seen), ncalled))
+	}
+	if failed != (err != nil) {
+		lib.Finding("C18", "sbuf:stack:error", "SerializeLayers error does not reflect the layers' results")
+	}
+	if !sameTypes(buf.Layers(), done) {
+		what := "sbuf:stack:order"
+		if failed {
+			what = "sbuf:stack:recorded-on-error"
+		}
+		lib.Finding("C18", what, fmt.Sprintf("Layers()=%s after SerializeLayers, the layers actually serialised (innermost first) are %s", showTypes(buf.Layers()), showTypes(done)))
+	}
+	if !bytes.Equal(buf.Bytes(), payload) {
+		lib.Finding("C18", "sbuf:stack:bytes", fmt.Sprintf("Bytes()=%s want %s (outermost layer first)", lib.Hex(buf.Bytes()), lib.Hex(payload)))
+	}
+	slots = nil
+	expect = append([]byte(nil), buf.Bytes()...)
+	expLay = append([]gopacket.LayerType(nil), buf.Layers()...)
+	lib.Stat("stack")
+	if failed {
+		lib.Stat("stack:failed-layer")
+	}
+	if len(sl) >= 2 {
+		lib.Nontrivial()
+	}
+	tag := "ok"
+	if err != nil {
+		tag = "err"
+	}
+	obs := make([]string, len(seen))
+	for i, s := range seen {
+		obs[i] = showTypes(s)
+	}
+	return fmt.Sprintf("%s L=%s O=%s B=%s", tag, showTypes(buf.Layers()), strings.Join(obs, ";"), lib.Hex(buf.Bytes()))
 }
 
 func boolInt(b bool) int {
@@ -286,6 +423,69 @@ func gen(r *lib.Rand, tier string, emit func(string)) {
 		}
 		if i < 0 {
 			break
+		}
+	}
+	// SerializeLayers with scripted layers: every stack of up to 3 layers over header sizes {0,1,3} and ok/fail,
+	// on a fresh buffer, after a history, and twice in a row (the helper clears first)
+	hs := []int{0, 1, 3}
+	var stacks [][]string
+	var rec func(cur []string, d int)
+	rec = func(cur []string, d int) {
+		if len(cur) > 0 {
+			stacks = append(stacks, append([]string(nil), cur...))
+		}
+		if d == 3 {
+			return
+		}
+		for _, h := range hs {
+			for o := 0; o < 2; o++ {
+				rec(append(cur, fmt.Sprintf("%d:%d:%d", d+1, h, o)), d+1)
+			}
+		}
+	}
+	rec(nil, 0)
+	for i, st := range stacks {
+		emit("reset")
+		emit(fmt.Sprintf("sbuf new %d %d", hints[i%3], hints[(i/3)%3]))
+		switch i % 3 {
+		case 1:
+			emit("sbuf append 2 a1a2")
+			emit("sbuf push 9")
+		case 2:
+			emit("sbuf prepend 3 b1b2b3")
+			emit("sbuf push 8")
+			emit("sbuf push 9")
+		}
+		emit("sbuf stack " + strings.Join(st, " "))
+		emit("sbuf layers")
+		if i%2 == 0 {
+			emit("sbuf stack " + strings.Join(stacks[(i*7+3)%len(stacks)], " "))
+			emit("sbuf layers")
+			emit("sbuf prepend 1 cc")
+		}
+	}
+	nst := 300
+	if tier == "thorough" {
+		nst = 20000
+	}
+	for c := 0; c < nst; c++ {
+		emit("reset")
+		emit(fmt.Sprintf("sbuf new %d %d", r.Pick([]int{0, 0, 1, 4, 16, 64}), r.Pick([]int{0, 0, 1, 4, 16, 64})))
+		for k := 0; k < 1+r.Intn(3); k++ {
+			n := 1 + r.Intn(7)
+			var st []string
+			for j := 0; j < n; j++ {
+				o := 1
+				if r.Chance(12) {
+					o = 0
+				}
+				st = append(st, fmt.Sprintf("%d:%d:%d", 1+r.Intn(40), r.Pick([]int{0, 1, 2, 4, 8, 20, 60}), o))
+			}
+			emit("sbuf stack " + strings.Join(st, " "))
+			emit("sbuf layers")
+			if r.Chance(30) {
+				emit(fmt.Sprintf("sbuf append 2 %s", fillBytes(r, 2, k)))
+			}
 		}
 	}
 	// random long histories
